@@ -37,10 +37,13 @@ COMPONENTS = {
 ASSUMPTIONS = [
     "real clock and real stat data: nothing asserted depends on the dirstate/index stat cache being used; every rewrite of a file changes its length",
     "symlink targets never resolve; names never match ignore rules except backup names (*~)",
-    "git: identity is the path; iter_changes is compared per path after splitting guessed renames (content similarity) into remove + add; directories are not tracked and are left out of the comparison",
-    "operations whose outcome breezy decides by conflict resolution or heuristics are not generated: revert with path conflicts or (git) with both added and deleted paths, partial commits that need entries outside the selection, remove --no-keep over entries whose disk kind differs from the recorded kind, smart_add walking a versioned directory that is no directory any more, rename_one of a path that is only in the basis",
-    "revert is run with backups=False; commit with allow_pointless=True, explicit revision ids, timestamps and committer",
+    "git: identity is the path; iter_changes is compared per path after splitting guessed renames/copies (content similarity) into remove + add; directories are not tracked and are left out; 'in the index but missing on disk' is not distinguished from 'removed'; with want_unversioned a path removed from the index but kept on disk may be reported or not",
+    "operations whose outcome breezy decides by conflict resolution or heuristics are not generated (model says Unmodelled): revert with path conflicts or (git) with both added and deleted/modified paths or a file<->symlink change, partial commits / reverts that need entries outside the selection (changed parents, other occupants of related paths), (git) partial commits while renames can be guessed, remove --no-keep over entries whose disk kind differs from the recorded kind or (git) with unversioned files below, smart_add walking a versioned directory that is no directory any more, rename_one of a path that is only in the basis, add under a parent whose recorded kind is not directory",
+    "bzr: unversioned files below a versioned entry that was recorded as a non-directory and is a directory now may or may not be listed (extras() and iter_changes disagree; the property is silent)",
+    "revert is run with backups=False; commit with allow_pointless=True, explicit revision ids (bzr), timestamps and committer",
     "unknowns()/extras() follow each implementation's documented shape: bzr reports an unversioned directory but not its contents, git reports unversioned non-directories recursively",
+    "states and operations that hit defects already reported (checks/treesim.py GUARDS: " + ", ".join(sorted(T.GUARDS)) + ") are left out while the guard is on; a guard is lifted in a share of the runs once known_findings.json has an open entry [property, 'known-defect', guard], and failures inside such a territory carry that signature",
+    "runs execute in-process (ISOLATION=thread): each run builds tree, model and Sim from scratch; random parts of lock/upload names are masked in the event log",
 ]
 STEP_CAP = 200000
 # measured: a run is 30-80 ms in-process but 0.3-1.8 s in a forked child (page-table work of
@@ -48,7 +51,10 @@ STEP_CAP = 200000
 # its whole world (tree, model, Sim) from scratch, nothing is kept between runs
 ISOLATION = "thread"
 # fraction of runs that may enter the states listed in treesim.GUARDS (reported defects)
+# VERIF_UNGUARDED=p: share of runs with EVERY guard lifted (to reproduce the findings);
+# otherwise P_LIFT of the runs lift the guards that have an open known_findings.json entry
 P_UNGUARDED = float(__import__("os").environ.get("VERIF_UNGUARDED", "0") or 0)
+P_LIFT = 0.2
 
 
 _warmed = []
@@ -132,17 +138,20 @@ def config(tier):
     return {"budget_s": 45, "run_timeout": 120, "selftest": 24, "workers": 8}
 
 
-def _p_unguarded_c10():
-    from . import C10
-
-    return C10.P_UNGUARDED
+def choose_unguarded(rng, prop):
+    x = rng.random()
+    if x < P_UNGUARDED:
+        return sorted(T.GUARDS)
+    if x < P_LIFT:
+        return T.lifted_guards(prop)
+    return []
 
 
 def generate(rng, tier, compare=False):
     flavour = rng.choice(["bzr", "bzr", "git"])
     names = T.make_namespace(rng)
     weights = T.swarm_weights(rng)
-    unguarded = sorted(T.GUARDS) if rng.random() < (P_UNGUARDED if not compare else _p_unguarded_c10()) else []
+    unguarded = choose_unguarded(rng, "C10" if compare else "C09")
     model = T.MTree(flavour, unguarded)
     n = rng.randint(5, 25)
     ops = T.gen_ops(rng, model, n, weights, names)
@@ -176,7 +185,7 @@ def safe_observe(sim, tree, fl, op):
         import traceback
 
         tb = "".join(traceback.format_exception(type(e), e, e.__traceback__)[-5:])
-        sim.fail("observe_raised", ["C09", "observe_raised", fl, type(e).__name__], "after %s: reading the tree raised %r\n%s" % (json.dumps(op), e, tb))
+        T.fail(sim, "C09", "observe_raised", [fl, type(e).__name__], "after %s: reading the tree raised %r\n%s" % (json.dumps(op), e, tb))
 
 
 def check_state(sim, tree, model, op, obs=None):
@@ -185,7 +194,7 @@ def check_state(sim, tree, model, op, obs=None):
     kind = op["o"] if op else "init"
 
     def fail(tag, detail):
-        sim.fail(tag, ["C09", tag, fl, kind], "after %s: %s" % (json.dumps(op), detail))
+        T.fail(sim, "C09", tag, [fl, kind], "after %s: %s" % (json.dumps(op), detail))
 
     disk = T.disk_snapshot(tree._sim_root, fl)
     if disk != model.disk:
@@ -232,7 +241,7 @@ def check_basis(sim, tree, model, op):
     try:
         snap = T.tree_snapshot(tree.basis_tree())
     except Exception as e:  # noqa: BLE001
-        sim.fail("observe_raised", ["C09", "observe_raised", fl, "basis", type(e).__name__], "after %s: reading the basis tree raised %r" % (json.dumps(op), e))
+        T.fail(sim, "C09", "observe_raised", [fl, "basis", type(e).__name__], "after %s: reading the basis tree raised %r" % (json.dumps(op), e))
     if fl == "bzr":
         got = {p: (fid, k, d, x) for p, (k, d, x, fid) in snap.items()}
         want = model.basis
@@ -240,7 +249,7 @@ def check_basis(sim, tree, model, op):
         got = {p: (None, k, d, x) for p, (k, d, x, _f) in snap.items() if k != T.DIR and p != ""}
         want = model.basis
     if got != want:
-        sim.fail("basis", ["C09", "basis", fl, op["o"] if op else "init"], "after %s: basis tree %s" % (json.dumps(op), _diff(want.items(), got.items())))
+        T.fail(sim, "C09", "basis", [fl, op["o"] if op else "init"], "after %s: basis tree %s" % (json.dumps(op), _diff(want.items(), got.items())))
 
 
 def refused_ok(exc):
@@ -272,6 +281,12 @@ def execute(sim, plan, extra=None):
         if cls == "skip" or (bad and cls != "error") or (not bad and cls != "ok"):
             sim.event("skip", i, op["o"])
             continue
+        if plan.get("unguarded") and not sim.notes.get("territory"):
+            t = model.territory(op)
+            if t:
+                sim.notes["territory"] = t
+                sim.probe("territory_" + t)
+                sim.event("territory", t)
         before = safe_observe(sim, tree, fl, op) if op["o"] == "reopen" else None
         raised = None
         try:
@@ -280,9 +295,9 @@ def execute(sim, plan, extra=None):
             raised = e
         if cls == "error":
             if raised is None:
-                sim.fail("illegal_accepted", ["C09", "illegal_accepted", fl, op["o"]], "%s was accepted; the model says it must be refused" % json.dumps(op))
+                T.fail(sim, "C09", "illegal_accepted", [fl, op["o"]], "%s was accepted; the model says it must be refused" % json.dumps(op))
             if not refused_ok(raised):
-                sim.fail("internal_error", ["C09", "internal_error", fl, op["o"], type(raised).__name__], "%s: %r" % (json.dumps(op), raised))
+                T.fail(sim, "C09", "internal_error", [fl, op["o"], type(raised).__name__], "%s: %r" % (json.dumps(op), raised))
             sim.probe("refused")
             sim.event("op", i, json.dumps(op, sort_keys=True), "refused", type(raised).__name__)
         else:
@@ -290,7 +305,7 @@ def execute(sim, plan, extra=None):
                 import traceback
 
                 tb = "".join(traceback.format_exception(type(raised), raised, raised.__traceback__)[-6:])
-                sim.fail("op_raised", ["C09", "op_raised", fl, op["o"], type(raised).__name__], "%s raised %r\n%s" % (json.dumps(op), raised, tb))
+                T.fail(sim, "C09", "op_raised", [fl, op["o"], type(raised).__name__], "%s raised %r\n%s" % (json.dumps(op), raised, tb))
             model.apply(op)
             sim.probe("op_" + op["o"])
             if op["o"] in T.STATE_CHANGING:
@@ -298,7 +313,7 @@ def execute(sim, plan, extra=None):
             sim.event("op", i, json.dumps(op, sort_keys=True), "ok")
         obs = check_state(sim, tree, model, op)
         if before is not None and _canon(before) != _canon(obs):
-            sim.fail("reopen", ["C09", "reopen", fl], "state read back after reopen differs: %s" % _diff(_canon(before), _canon(obs)))
+            T.fail(sim, "C09", "reopen", [fl], "state read back after reopen differs: %s" % _diff(_canon(before), _canon(obs)))
         if op["o"] in ("commit", "revert", "reopen") or i == len(plan["ops"]) - 1:
             check_basis(sim, tree, model, op)
         if extra is not None:
@@ -306,4 +321,6 @@ def execute(sim, plan, extra=None):
         sim.event("obs", _h(_canon(obs)))
         sim.state_seen(model.digest())
     sim.nontrivial = done >= 3
+    if sim.notes.get("prop") is None:
+        sim.notes.pop("territory", None)
     return tree, model
